@@ -442,6 +442,9 @@ def _getput_line_comment(
         if field is None:
             field = 'body'
 
+        if field == 'orelse' and (orelse := getattr(ast, 'orelse', None)) and (elif_ := orelse[0].f).is_elif():  # header of an `elif` is the body header of the child `If`, which may have its body on the header line
+            return elif_._getput_line_comment(comment, 'body', full)
+
         _, _, end_ln, end_col = self._loc_block_header_end(field)
 
     else:
